@@ -941,7 +941,7 @@ reg(Prop("C01", "Playable moves are exactly the legal moves of chess", "Properti
                          "adds every placement of KQK, KRK, KPK (both pawn colours, both sides to move, all consistent "
                          "ep/castling states) and a strided subset of twelve 4-piece materials; every position passed the "
                          "harness filter posgen.Valid, and the judge re-checks rep_ok (violation clause 8) and Spec `valid` "
-                         "(positions outside it are accepted unjudged); compared: exact noisy list, quiet list and playable "
+                         "(positions outside it are accepted unjudged); compared (each as a sorted list, i.e. as a multiset - emission order is not part of the property): noisy list, quiet list and playable "
                          "list against the model, and the playable list against legal_spec enumerated over all candidate "
                          "encodings (clauses 1 not legal / 2 missing / 3 duplicate); non-trivial = every such position; "
                          "distinct by FEN (placement, side to move, rights, ep target, clocks)"),
